@@ -121,12 +121,28 @@ def c13_streams(tier, rng, ctx):
     hs = [h.replace("hist\tm\t", "hist\tdv\t", 1) for h in hs]
     rnd = [h.replace("hist\tm\t", "hist\tdv\t", 1) for h in c_mem.random_histories(rng, 2000 if tier == "quick" else 20000, 10, tier)]
     sd = std_histories(rng, 1500 if tier == "quick" else 15000, 10, "sdv")
+    # every method with link arguments (a link to a directory, to a file, dangling, a path through a link), after set_cwd through a link too
+    op = c_mem.op
+    pre = [op("mkdir_p", "/d"), op("mkfile", "/f"), op("write_all", "/d/x", b"x"), op("symlink", "/ld", "/d"), op("symlink", "/lf", "/f"), op("symlink", "/dang", "/nope")]
+    lp = ["/ld", "/lf", "/dang", "/ld/x", "ld", "/d/../ld"]
+    one = ["set_cwd", "mkfile", "mkdir_p", "remove", "remove_all", "read_all", "read_lines", "readlink", "readlink_abs", "exists", "is_dir", "is_file", "is_symlink",
+           "is_symlink_dir", "is_symlink_file", "is_exec", "is_readonly", "mode", "owner", "abs", "paths", "dirs", "files", "all_paths", "all_dirs", "all_files"]
+    fixed = []
+    for name in one:
+        for a in lp:
+            fixed.append("\t".join(["hist", "dv", c_mem.envspec(MEM_ENV)] + pre + [op(name, a), op("cwd"), op(name, "x")]))
+    for a in lp:
+        fixed.append("\t".join(["hist", "dv", c_mem.envspec(MEM_ENV)] + pre + [op("write_all", a, b"w"), op("append_all", a, b"a"), op("mkdir_m", a, 0o700), op("chmod", a, 0o600),
+                                                                             op("chown", a, 7, 8), op("mkfile_m", a, 0o640), "entries:%s:sort,follow=1" % c_mem.hx(a)]))
+        for b in lp + ["/new"]:
+            for name in ["move_p", "copy", "symlink"]:
+                fixed.append("\t".join(["hist", "dv", c_mem.envspec(MEM_ENV)] + pre + [op(name, a, b), op("cwd")]))
     env = dict(MEM_ENV)
     senv = sandbox_env("c13")
     return [
-        Stream("vfs-memfs-transcript", "pycheck", hs + rnd, impl_env=env, pycheck=eq, nontrivial=lambda l, o: "\tok" in o or "\tp" in o,
-               rule="every history of the model-guided BFS (%s, depth %d, full call alphabet incl. traversals, copy, chmod, chown) and random histories, run on a Memfs value "
-                    "directly and through Vfs::Memfs: per-call results and the complete final state must be identical" % (info, depth)),
+        Stream("vfs-memfs-transcript", "pycheck", fixed + hs + rnd, impl_env=env, pycheck=eq, nontrivial=lambda l, o: "\tok" in o or "\tp" in o,
+               rule="every history of the model-guided BFS (%s, depth %d, full call alphabet incl. traversals, copy, chmod, chown) and random histories, and every method with link arguments "
+                    "(link to a directory / file, dangling, through a link) on a fixed tree, run on a Memfs value directly and through Vfs::Memfs: per-call results and the complete final state must be identical" % (info, depth)),
         Stream("vfs-stdfs-transcript", "pycheck", sd, impl_env=senv, pycheck=eq, nontrivial=lambda l, o: "\tok" in o or "\tp" in o,
                rule="random sandbox-confined histories run on Stdfs directly and through Vfs::Stdfs: per-call results and the tree read back by an independent observer must be identical"),
         Stream("entry-memfs", "pycheck", entry_lines("mem"), impl_env=env, pycheck=eq, exhaustive=True,
